@@ -151,20 +151,20 @@ def impl_vs_impl(rng, n, residuals_only=False, terms_only=False):
         # repeats the times to the sample count), 1-D space
         s, r = spinn(rng, 2, 1, "nonstatio_PDE"); tw = make_twin(s, True)
         Ps = Params(nn_params=s.init_params(), eq_params={}); Pt = Params(nn_params=tw.init_params(), eq_params={})
-        N = B * [1, 2, 4][(rnd // 3) % 3]
-        t0 = dy(rng, 0, 2); ts = jnp.array([[t0 + 0.375 * k] for k in range(B)])          # distinct times
-        xs = jnp.array([[dy(rng)] for _ in range(B)])
-        ns = jnp.array([[dy(rng)] for _ in range(N)])
-        common = dict(dynamic_loss=None, norm_samples=ns, norm_int_length=2.0)
-        Ls = jinns.loss.LossPDENonStatio(u=s, params=Ps, **common); Lt = jinns.loss.LossPDENonStatio(u=tw, params=Pt, **common)
-        txs = jnp.concatenate([ts, xs], axis=1)
-        try:
-            _, a = Ls.evaluate(Ps, PDENonStatioBatch(times_x_inside_batch=txs, times_x_border_batch=None))
-            _, b = Lt.evaluate(Pt, PDENonStatioBatch(times_x_inside_batch=txs, times_x_border_batch=None))
-            if not close(a["norm_loss"], b["norm_loss"]):
-                fails.append({"detail": f"non-stationary normalisation term with {B} time(s) and {N} samples: {float(a['norm_loss'])} on the separable network, {float(b['norm_loss'])} on its pointwise twin", "case": dict(what="terms", cond="normalisation non-stationary", B=B, N=N)})
-        except Exception as ex:
-            fails.append({"detail": f"non-stationary normalisation term with {B} time(s) and {N} samples raised {type(ex).__name__}: {str(ex)[:160]}", "case": dict(what="terms", cond="normalisation non-stationary", B=B, N=N)})
+        for N in (B, 2 * B, 3 * B if rnd % 2 else 4 * B):
+            t0 = dy(rng, 0, 2); ts = jnp.array([[t0 + 0.375 * k] for k in range(B)])          # distinct times
+            xs = jnp.array([[dy(rng)] for _ in range(B)])
+            ns = jnp.array([[dy(rng)] for _ in range(N)])
+            common = dict(dynamic_loss=None, norm_samples=ns, norm_int_length=2.0)
+            Ls = jinns.loss.LossPDENonStatio(u=s, params=Ps, **common); Lt = jinns.loss.LossPDENonStatio(u=tw, params=Pt, **common)
+            txs = jnp.concatenate([ts, xs], axis=1)
+            try:
+                _, a = Ls.evaluate(Ps, PDENonStatioBatch(times_x_inside_batch=txs, times_x_border_batch=None))
+                _, b = Lt.evaluate(Pt, PDENonStatioBatch(times_x_inside_batch=txs, times_x_border_batch=None))
+                if not close(a["norm_loss"], b["norm_loss"]):
+                    fails.append({"detail": f"non-stationary normalisation term with {B} time(s) and {N} samples: {float(a['norm_loss'])} on the separable network, {float(b['norm_loss'])} on its pointwise twin", "case": dict(what="terms", cond="normalisation non-stationary", B=B, N=N)})
+            except Exception as ex:
+                fails.append({"detail": f"non-stationary normalisation term with {B} time(s) and {N} samples raised {type(ex).__name__}: {str(ex)[:160]}", "case": dict(what="terms", cond="normalisation non-stationary", B=B, N=N)})
         # initial-condition term in 2 space dimensions, initial state not symmetric in (x, y): the separable branch evaluates
         # it on the grid of the batch columns, the pointwise one on every (x_i, y_j) pair
         s, r = spinn(rng, 3, 1, "nonstatio_PDE"); tw = make_twin(s, True)
